@@ -711,3 +711,104 @@ func checkLiteralPatternsUnescaped(p *Prog, r *Result, rule string) int {
 	}
 	return n
 }
+
+// R18e: the same clause seen from the word expansion. An unquoted literal of a command word reaches wordFields with its
+// backslashes; `\*` stands for an asterisk, not for "any string". Whether a field is a pattern is decided later from
+// its unquoted parts, so the character that followed a backslash has to travel as a quoted part: in the clause of
+// wordFields that handles *syntax.Lit, under the test that finds a backslash, a fieldPart with a non-zero quote level
+// is built. Removing the backslash and appending the result as one unquoted part — what the pinned tree did — makes
+// `echo \*` list the directory.
+func checkEscapedLiteralsQuoted(p *Prog, r *Result, rule string) int {
+	pkg := p.Pkg("expand")
+	info := pkg.TypesInfo
+	fd := p.FuncDecl("expand", "Config.wordFields")
+	if fd == nil {
+		r.Undecided(rule, "expand.(Config).wordFields", token.NoPos, "anchor not found")
+		return 0
+	}
+	isBackslashTest := func(n ast.Node) bool {
+		found := false
+		ast.Inspect(n, func(q ast.Node) bool {
+			switch x := q.(type) {
+			case *ast.CallExpr:
+				if callee := calleeOf(info, x); callee != nil && callee.Pkg() != nil && callee.Pkg().Path() == "strings" {
+					for _, a := range x.Args {
+						if tv, ok := info.Types[a]; ok && tv.Value != nil && (tv.Value.ExactString() == `"\\"` || tv.Value.ExactString() == "92") {
+							found = true
+						}
+					}
+				}
+			case *ast.BinaryExpr:
+				if tv, ok := info.Types[x.Y]; ok && tv.Value != nil && tv.Value.ExactString() == "92" {
+					found = true
+				}
+			}
+			return !found
+		})
+		return found
+	}
+	n := 0
+	ast.Inspect(fd.Body, func(m ast.Node) bool {
+		cc, ok := m.(*ast.CaseClause)
+		if !ok {
+			return true
+		}
+		isLit := false
+		for _, e := range cc.List {
+			if typeName(derefType(info.TypeOf(e))) == "Lit" {
+				isLit = true
+			}
+		}
+		if !isLit {
+			return true
+		}
+		n++
+		key := funcKey("expand", fd) + "#the character after a backslash travels as a quoted part"
+		tests, quoted := 0, false
+		for _, st := range cc.Body {
+			ast.Inspect(st, func(q ast.Node) bool {
+				var region ast.Node
+				switch x := q.(type) {
+				case *ast.IfStmt:
+					if isBackslashTest(x.Cond) || (x.Init != nil && isBackslashTest(x.Init)) {
+						region = x
+					}
+				case *ast.ForStmt:
+					if isBackslashTest(x) {
+						region = x
+					}
+				}
+				if region == nil {
+					return true
+				}
+				tests++
+				ast.Inspect(region, func(k ast.Node) bool {
+					cl, ok := k.(*ast.CompositeLit)
+					if !ok || typeName(info.TypeOf(cl)) != "fieldPart" {
+						return true
+					}
+					for _, el := range cl.Elts {
+						if kv, ok := el.(*ast.KeyValueExpr); ok {
+							if kid, ok := kv.Key.(*ast.Ident); ok && kid.Name == "quote" {
+								if tv, ok := info.Types[kv.Value]; ok && tv.Value != nil && tv.Value.ExactString() != "0" {
+									quoted = true
+								}
+							}
+						}
+					}
+					return true
+				})
+				return true
+			})
+		}
+		switch {
+		case tests == 0:
+			r.Undecided(rule, key, cc.Pos(), "the clause for a literal no longer tests for a backslash: the rule does not see how escapes are handled")
+		default:
+			r.Check(quoted, rule, key, cc.Pos(), "under the backslash test a fieldPart with a non-zero quote level is built",
+				"the clause that handles an unquoted literal finds its backslashes and builds no quoted part for what follows them: with the backslash gone and the text unquoted, `\\*` is an asterisk that the later glob step takes for a pattern — `echo \\*` lists the directory")
+		}
+		return true
+	})
+	return n
+}
